@@ -9,6 +9,7 @@ import (
 	"encoding/binary"
 	"fmt"
 	"net"
+	"strings"
 	"sync"
 
 	"pgregory.net/rapid"
@@ -164,6 +165,9 @@ func (m *vf07Msg) Bytes() []byte {
 
 var vf07HostileLens = []int{0, 1, 3, 0xff, 0xffff}
 
+// label prefix that switches the body builders to "all lengths consistent" (valid-but-unusual bodies)
+const vf07StrictMark = "S!"
+
 // every extension id ExtensionFromID knows, plus a few it does not
 var vf07ExtTypes = []uint16{0, 5, 10, 11, 13, 16, 17, 18, 21, 23, 24, 27, 28, 34, 35, 41, 43, 45, 50, 51, 57, 13172, 17513, 17613,
 	30031, 30032, 0xfe0d, 0xff01, 0x0a0a, 0x3a3a, 42, 44, 22, 49, 1, 0xffff}
@@ -176,6 +180,9 @@ func vf07Bytes(rt *rapid.T, label string, max int) []byte {
 
 // vf07LenGame returns the length value to write for a vector that really has n bytes.
 func vf07LenGame(rt *rapid.T, label string, n int) int {
+	if strings.HasPrefix(label, vf07StrictMark) { // strict mode: every declared length is the real one
+		return n
+	}
 	switch rapid.IntRange(0, 9).Draw(rt, label+"_lg") {
 	case 0:
 		return vf07HostileLens[rapid.IntRange(0, len(vf07HostileLens)-1).Draw(rt, label+"_h")]
@@ -211,7 +218,7 @@ func vf07GenU16s(rt *rapid.T, label string, pool []uint16) []byte {
 		}
 		b = append(b, byte(v>>8), byte(v))
 	}
-	if rapid.IntRange(0, 7).Draw(rt, label+"_odd") == 0 {
+	if !strings.HasPrefix(label, vf07StrictMark) && rapid.IntRange(0, 7).Draw(rt, label+"_odd") == 0 {
 		b = append(b, 7)
 	}
 	return b
@@ -229,7 +236,13 @@ func vf07GenProtoList(rt *rapid.T, label string) []byte {
 
 // vf07GenBody draws a body for extension type typ: mostly grammar-shaped with boundary choices, sometimes raw bytes.
 func vf07GenBody(rt *rapid.T, label string, typ uint16) []byte {
-	if rapid.IntRange(0, 9).Draw(rt, label+"_raw") == 0 {
+	strict := false
+	switch rapid.IntRange(0, 9).Draw(rt, label+"_mode") {
+	case 0, 1, 2, 3:
+		strict = true
+		label = vf07StrictMark + label
+	}
+	if !strict && rapid.IntRange(0, 9).Draw(rt, label+"_raw") == 0 {
 		n := []int{0, 1, 2, 3, 4, 5, 7, 8, 16, 40}[rapid.IntRange(0, 9).Draw(rt, label+"_rawn")]
 		return rapid.SliceOfN(rapid.Byte(), n, n).Draw(rt, label+"_rawb")
 	}
@@ -302,17 +315,39 @@ func vf07GenBody(rt *rapid.T, label string, typ uint16) []byte {
 	case 41:
 		var ids, bnd []byte
 		ni := rapid.IntRange(0, 3).Draw(rt, label+"_ni")
+		nb := rapid.IntRange(0, 3).Draw(rt, label+"_nb")
+		if strict {
+			ni = rapid.IntRange(1, 3).Draw(rt, label+"_nis")
+			nb = ni
+		}
 		for i := 0; i < ni; i++ {
 			l := fmt.Sprintf("%s_id%d", label, i)
 			idl := []int{0, 1, 16, 100}[rapid.IntRange(0, 3).Draw(rt, l+"_n")]
+			if strict && idl == 0 {
+				idl = 7
+			}
 			ids = append(ids, vf07Vec16(rt, l+"_l", make([]byte, idl))...)
-			ids = append(ids, vf07Bytes(rt, l+"_age", 4)...)
+			age := vf07Bytes(rt, l+"_age", 4)
+			if strict {
+				age = []byte{0, 1, 2, byte(i)}
+			}
+			ids = append(ids, age...)
 		}
-		nb := rapid.IntRange(0, 3).Draw(rt, label+"_nb")
 		for i := 0; i < nb; i++ {
 			l := fmt.Sprintf("%s_b%d", label, i)
 			bl := []int{0, 31, 32, 33, 48, 64, 255}[rapid.IntRange(0, 6).Draw(rt, l+"_n")]
+			if strict && bl < 32 {
+				bl = 32
+			}
 			bnd = append(bnd, vf07Vec8(rt, l+"_l", make([]byte, bl))...)
+		}
+		if !strict && rapid.IntRange(0, 4).Draw(rt, label+"_over") == 0 {
+			// the hand-written length arithmetic of FakePreSharedKeyExtension.Write: declared lengths beyond the data
+			decl := []int{0xff, 0x100, 0xffff, len(bnd) + 40}[rapid.IntRange(0, 3).Draw(rt, label+"_decl")]
+			b := append(vf07U16(len(ids)), ids...)
+			b = append(b, vf07U16(decl&0xffff)...)
+			b = append(b, byte([]int{0xff, 40, 33, 200}[rapid.IntRange(0, 3).Draw(rt, label+"_bdecl")]))
+			return append(b, make([]byte, rapid.IntRange(0, 34).Draw(rt, label+"_have"))...)
 		}
 		return append(vf07Vec16(rt, label+"_il", ids), vf07Vec16(rt, label+"_bl", bnd)...)
 	case 57:
@@ -327,6 +362,9 @@ func vf07GenBody(rt *rapid.T, label string, typ uint16) []byte {
 		return b
 	case 0xfe0d:
 		b := []byte{byte([]int{0, 0, 0, 1, 2}[rapid.IntRange(0, 4).Draw(rt, label+"_t")])}
+		if strict {
+			b[0] = 0
+		}
 		kdf := []uint16{1, 1, 2, 3, 0, 0xffff}[rapid.IntRange(0, 5).Draw(rt, label+"_kdf")]
 		aead := []uint16{1, 1, 2, 3, 0, 0xffff}[rapid.IntRange(0, 5).Draw(rt, label+"_aead")]
 		b = append(b, byte(kdf>>8), byte(kdf), byte(aead>>8), byte(aead), byte(rapid.IntRange(0, 255).Draw(rt, label+"_cid")))
@@ -334,7 +372,7 @@ func vf07GenBody(rt *rapid.T, label string, typ uint16) []byte {
 		pl := make([]byte, []int{0, 1, 15, 16, 17, 144, 239, 300}[rapid.IntRange(0, 7).Draw(rt, label+"_pl")])
 		b = append(b, vf07Vec16(rt, label+"_el", enc)...)
 		b = append(b, vf07Vec16(rt, label+"_pll", pl)...)
-		if rapid.IntRange(0, 5).Draw(rt, label+"_cut") == 0 {
+		if !strict && rapid.IntRange(0, 5).Draw(rt, label+"_cut") == 0 {
 			b = b[:rapid.IntRange(0, len(b)).Draw(rt, label+"_cutat")]
 		}
 		return b
